@@ -625,6 +625,21 @@ func runC06(c *Ctx) {
 							problems = append(problems, "Refilter failed: "+err.Error())
 						}
 					}
+				case x == 11 && s%2 == 0:
+					// a subscription goes away while events are being published
+					var leaves []*node
+					for _, nd := range t.nodes {
+						if nd.sub != nil && !nd.closed && len(nd.children) == 0 {
+							leaves = append(leaves, nd)
+						}
+					}
+					if len(leaves) > 1 {
+						nd := leaves[c.Rng.Intn(len(leaves))]
+						go nd.close()
+						markClosed(nd)
+						mutate(c, srv)
+						mutate(c, srv)
+					}
 				default:
 					verify(fmt.Sprintf("barrier at step %d:", s))
 				}
@@ -653,6 +668,69 @@ func runC06(c *Ctx) {
 			c.Sample(sample)
 		}
 	}
-	c.Rep.Rule = "random trees mixing all six subscribe/clone forms to depth 3 on a real controller fed by the fake watch; parent histories that move objects in and out of the filters; Refilter (new, back to earlier, equal-rebuilt, non-comparable FN) fired WITHOUT barriers, racing with readiness and in-flight events, under 3 levels of logger-driven perturbation. At barriers: every ready node's cache = its filter chain applied to the server content (also vs the extracted nested_view), deferred nodes ready iff supplied, every subscription's events since the previous barrier replay (well-formed, strictly newer updates) from its previous cache to its current cache. Non-trivial = scenario with >= 4 node checks."
+	// long histories with consumers that only use Cache() and never read
+	// Events(): the caches stay current however many events were emitted
+	for i := 0; i < 3; i++ {
+		var problems []string
+		seed := c.Seed*1000 + 900 + int64(i)
+		what := "filtered subscriptions whose Events() is never read, 140 accepted changes"
+		c.Now(what)
+		dl := treeBubble(c, seed, i%3, nil, func(t *tree, srv *fakeapi.Server) {
+			all := &Filt{Tag: FNot, Children: []*Filt{{Tag: FNSName, IDs: []ID2{{NS: 2, NM: 3}}}}}
+			var nds []*node
+			a, _ := t.add(t.root, nFSub, all)
+			b, _ := t.add(t.root, nDSub, nil)
+			cl, _ := t.add(t.root, nFClone, all)
+			var d *node
+			if cl != nil {
+				d, _ = t.add(cl, nFSub, fam[i%len(fam)])
+			}
+			for _, nd := range []*node{a, b, d} {
+				if nd != nil {
+					nd.setStall(true)
+					nds = append(nds, nd)
+				}
+			}
+			if b != nil {
+				t.refilter(b, all)
+			}
+			for k := 0; k < 140; k++ {
+				srv.Set(1+k%2, 1+k%3, labSets[k%3], 1)
+				if k%10 == 9 {
+					t.ct.pert.Barrier()
+				}
+			}
+			t.ct.pert.Barrier()
+			objs := srv.Objects()
+			for _, nd := range nds {
+				got, err := cacheIDs(nd.cache())
+				exp := t.expectedIDs(nd, objs)
+				if err != nil || !sameInts(got, exp) {
+					problems = append(problems, fmt.Sprintf("%s, whose Events() is never read: after 140 changes the cache holds %v (err %v), its filters applied to the server content give %v", nd.name(), got, err, exp))
+				}
+			}
+			if b != nil {
+				// and Refilter still works
+				done := make(chan struct{})
+				go func() { t.refilter(b, fam[1]); close(done) }()
+				t.ct.pert.Barrier()
+				if !isClosed(done) {
+					problems = append(problems, b.name()+": Refilter blocks behind unread events")
+				}
+			}
+		})
+		runs++
+		c.Rep.Evaluations++
+		replay := map[string]interface{}{"seed": seed, "scenario": what}
+		if dl != "" {
+			replay["deadlock"] = dl
+			c.Violation("", "hang (bubble deadlock): "+what, replay)
+		}
+		for _, p := range problems {
+			c.Violation("", p, replay)
+		}
+		c.DistinctCase(fmt.Sprint("unread", i))
+	}
+	c.Rep.Rule = "random trees mixing all six subscribe/clone forms to depth 3 on a real controller fed by the fake watch; parent histories that move objects in and out of the filters; Refilter (new, back to earlier, equal-rebuilt, non-comparable FN) and closes of sibling subscriptions fired WITHOUT barriers, racing with readiness and in-flight events, under 3 levels of logger-driven perturbation. At barriers: every ready node's cache = its filter chain applied to the server content (also vs the extracted nested_view), deferred nodes ready iff supplied, every subscription's events since the previous barrier replay (well-formed, strictly newer updates) from its previous cache to its current cache. Plus filtered subscriptions that are used only through Cache() (Events() never read) over 140 accepted changes: caches current, Refilter not blocked. Non-trivial = scenario with >= 4 node checks."
 	c.Rep.Stats["runs"] = runs
 }
